@@ -6,7 +6,9 @@ import threading
 import sys
 from props.common import table_obligations, bounded
 
-LEVEL_TEXT = ("Frame obligations: every per-instance table (variables, functions, listeners, lexer, LR parser) is created fresh in __init__; no "
+LEVEL_TEXT = ("[bounded: also the fresh-process interference oracle - every outcome equals the outcome of the same formula in a freshly started "
+              "process, whatever ran before or meanwhile on this or another parser.]  "
+              "Frame obligations: every per-instance table (variables, functions, listeners, lexer, LR parser) is created fresh in __init__; no "
               "class-level mutable attribute; module state (the function registry) is written only by the decorators at import; call-site "
               "obligation at the PLY boundary: the lexer handed to LRParser.parse must be owned by the call (a clone made in the call) - with the "
               "argument omitted PLY uses the process-global ply.lex.lexer shared by all parsers, with self.lex it would be shared by nested "
